@@ -66,10 +66,11 @@ theorem frame (env : AllowEnv) (ds : List Diag) :
   · simp only [he]
     exact ⟨rfl, rfl, rfl, rfl, updateLevel_cases env d⟩
 
-/-- **allowed_only_if_named** (soundness direction of `silenced_iff`). A lint that was not `Allowed` comes out
-    `Allowed` only if its code or `All` occurs (under the comparison `is_lint_allowed_by` uses — exact string equality on
-    the pinned tree, `named_exact`) in the command line list, or in an `allow` attribute of the file its span lies in,
-    or in an `allow` attribute of the entity its scope string names or of one of that entity's parents. -/
+/-- **allowed_only_if_named** (soundness direction of `silenced_iff`, for ANY diagnostic and configuration, also where
+    the side conditions of `silenced_iff` fail). A lint that was not `Allowed` comes out `Allowed` only if its code or `All`
+    occurs (under the comparison `is_lint_allowed_by` uses — equality up to ASCII letter case, `named_meaning`) in the
+    command line list, or in an `allow` attribute of the file its span lies in, or in an `allow` attribute of the entity
+    its scope string names or of one of that entity's parents. -/
 theorem allowed_only_if_named (env : AllowEnv) (d : Diag) (hlev : d.level ≠ .allowed)
     (h : (updateOne env d).level = .allowed) :
     d.isError = false ∧ (NamedBy env.cli d.code ∨ FileNames env d ∨ ScopeNames env d) := by
@@ -79,35 +80,35 @@ theorem allowed_only_if_named (env : AllowEnv) (d : Diag) (hlev : d.level ≠ .a
   · simp only [he] at h
     exact ⟨by simpa using he, (updateLevel_allowed_iff env d hlev).1 h⟩
 
-/-- on the pinned tree "occurs" means exact string equality -/
-theorem named_exact (hcmp : Gen.allowCompareIgnoresCase = false) (ids : List String) (code : String) :
-    NamedBy ids code ↔ ∃ id ∈ ids, id = Gen.allowAllIdentifier ∨ id = code := by
+/-- "occurs" means equality up to ASCII letter case (the comparison extracted from `is_lint_allowed_by`; before 61aa376
+    it was `==`, and this theorem does not compile against that source) -/
+theorem named_meaning (ids : List String) (code : String) :
+    NamedBy ids code ↔ ∃ id ∈ ids, eqIgnoreAsciiCase id Gen.allowAllIdentifier = true ∨ eqIgnoreAsciiCase id code = true := by
+  have hcmp : Gen.allowCompareIgnoresCase = true := by decide
   simp [NamedBy, lintIdEq, hcmp]
 
-/-- what the property demands, over the same configuration: named by an accepted command-line value (whatever its
+/-- what the property demands, over a bare configuration: named by an accepted command-line value (whatever its
     letter case), by the file, or by the element the lint concerns / its enclosing definitions (`concerns` = its key) -/
 def Demanded (env : AllowEnv) (d : Diag) (concerns : Option String) : Prop :=
   namedByCli env.cli d.code = true ∨
   (∃ f, d.spanFile = some f ∧ namedByAttrs (env.fileAllows f) d.code = true) ∨
   (∃ k as, concerns = some k ∧ env.scopeAllows k = some as ∧ namedByAttrs as d.code = true)
 
-/-- **silenced_iff_partial.** The full equivalence, for every configuration and every lint (default level `Warning`),
-    under the two exclusions that keep the pinned tree's defects out:
-    * `hcli`   — the `--allow` values are spelled exactly as the allowable identifiers (excludes D-13b: other letter
-                 cases are accepted by clap but compared with `==`);
-    * `hscope` — the scope the lint recorded is the element it concerns (excludes D-13a: `Deprecated` records the
-                 enclosing container's scope);
-    and for programs whose `allow` attributes passed `Allow::parse_from` (`hfile`, `hent`: arguments are allowable
-    identifiers — anything else is error E027 and the compilation has failed anyway).
-    Then the lint is `Allowed` exactly when the property says it is silenced, and `Warning` otherwise. -/
-theorem silenced_iff_partial (env : AllowEnv) (d : Diag) (concerns : Option String)
+/-- **silenced_iff_config** (the equivalence over a bare configuration). For every configuration whose `--allow` values
+    were accepted by clap (any letter case — `is_lint_allowed_by` compares case-insensitively, extracted) and whose
+    `allow` attributes passed `Allow::parse_from` (`hfile`, `hent`: arguments are allowable identifiers — anything else
+    is error E027), and every lint at its default level whose recorded scope is the key of the element it concerns
+    (`hscope`): the lint is `Allowed` exactly when the property says it is silenced, and `Warning` otherwise.
+    `silenced_iff` below discharges `hscope` and the table lookup for the lints of actual programs. -/
+theorem silenced_iff_config (env : AllowEnv) (d : Diag) (concerns : Option String)
     (hlint : d.isError = false) (hkind : d.code ∈ Gen.lintKinds) (hlev : d.level = lintDefaultLevel d.code)
-    (hcli : ∀ v ∈ env.cli, v ∈ Gen.allowableLintIdentifiers)
+    (hcli : ∀ v ∈ env.cli, cliAccepts v = true)
     (hfile : ∀ f, ∀ a ∈ env.fileAllows f, ∀ v ∈ a, v ∈ Gen.allowableLintIdentifiers)
     (hent : ∀ k as, env.scopeAllows k = some as → ∀ a ∈ as, ∀ v ∈ a, v ∈ Gen.allowableLintIdentifiers)
     (hscope : d.scope = concerns) :
     ((updateOne env d).level = .allowed ↔ Demanded env d concerns) ∧
     (¬ Demanded env d concerns → (updateOne env d).level = .warning) := by
+  have hcmp : Gen.allowCompareIgnoresCase = true := by decide
   have hw : d.level = .warning := by rw [hlev]; exact default_level_not_error d.code hkind
   have hne : d.level ≠ .allowed := by rw [hw]; decide
   have hcode := kinds_allowable d.code hkind
@@ -115,7 +116,7 @@ theorem silenced_iff_partial (env : AllowEnv) (d : Diag) (concerns : Option Stri
   have hiff : updateLevel env d = .allowed ↔ Demanded env d concerns := by
     rw [updateLevel_allowed_iff env d hne]
     unfold Demanded FileNames ScopeNames
-    rw [namedByCli_exact env.cli d.code hcli hcode, namedBy_exact env.cli d.code hcli hcode, hscope]
+    rw [namedBy_cli_iff hcmp env.cli d.code hcli, hscope]
     constructor
     · rintro (h | ⟨f, hf, h⟩ | ⟨s, as, hs, ha, h⟩)
       · exact Or.inl h
@@ -132,45 +133,159 @@ theorem silenced_iff_partial (env : AllowEnv) (d : Diag) (concerns : Option Stri
   · rw [h, hw]
   · exact absurd (hiff.1 h) hnd
 
-/-- **silenced_iff (full statement, NOT provable on the pinned tree).** For every program, every command line that clap
-    accepts and every lint the compiler records for the program, the level after `into_updated` is the level the
-    property demands (`demandedLevel`: named on the command line in any accepted spelling, on the file, on the element
-    the lint concerns or on an enclosing definition). Refuted by D-13a and D-13b below and, on the real code, by the
-    correspondence families `known-d13a` / `known-d13b`. -/
-def silenced_iff_full : Prop :=
-  ∀ (p : Program) (cli : List String) (s : LintSite), s ∈ lintSites p → (∀ v ∈ cli, cliAccepts v = true) →
+/-- the property's wording for a lint site of a program, spelled out: the lint is named (or `All` is given)
+    * by an `--allow` value the command line accepts (clap accepts any letter case of an allowable identifier), or
+    * by an `allow` attribute of the file it occurs in, or
+    * by an `allow` attribute on the element it concerns or on a definition enclosing that element — `s.chain` holds
+      exactly these attributes' argument lists, read off the syntax tree (no scope string, no lookup). -/
+def SilencedBy (cli : List String) (p : Program) (s : LintSite) : Prop :=
+  (∃ v ∈ cli, cliAccepts v = true ∧ (eqIgnoreAsciiCase v Gen.allowAllIdentifier = true ∨ eqIgnoreAsciiCase v s.kind = true)) ∨
+  (∃ a ∈ fileAllowsOf p s.file, ∃ id ∈ a, id = Gen.allowAllIdentifier ∨ id = s.kind) ∨
+  (∃ a ∈ s.chain, ∃ id ∈ a, id = Gen.allowAllIdentifier ∨ id = s.kind)
+
+/-- `demandedLevel` (what the driver compares with the compiler) is `SilencedBy` as a level -/
+theorem demandedLevel_iff (cli : List String) (p : Program) (s : LintSite) (hkind : s.kind ∈ Gen.lintKinds) :
+    (demandedLevel cli p s = .allowed ↔ SilencedBy cli p s) ∧ (¬ SilencedBy cli p s → demandedLevel cli p s = .warning) := by
+  have hw := default_level_not_error s.kind hkind
+  have hb : (namedByCli cli s.kind || namedByAttrs (fileAllowsOf p s.file) s.kind || namedByAttrs s.chain s.kind) = true ↔ SilencedBy cli p s := by
+    simp only [Bool.or_eq_true, namedByCli_iff, namedByAttrs_iff, SilencedBy, or_assoc]
+  unfold demandedLevel
+  by_cases hc : (namedByCli cli s.kind || namedByAttrs (fileAllowsOf p s.file) s.kind || namedByAttrs s.chain s.kind) = true
+  · rw [if_pos hc]
+    exact ⟨⟨fun _ => hb.1 hc, fun _ => rfl⟩, fun h => absurd (hb.1 hc) h⟩
+  · rw [if_neg hc]
+    refine ⟨⟨fun h => ?_, fun h => absurd (hb.2 h) hc⟩, fun _ => hw⟩
+    rw [hw] at h
+    cases h
+
+/-- **silenced_iff (the full statement).** For every program, every command line clap accepts (`cliParse vs = some cli`:
+    every value is an allowable identifier in some letter case; the values are stored as spelled) and every lint the
+    compiler records for the program (`lintSites`: MalformedDocComment, Deprecated, BrokenDocLink, IncorrectDocComment,
+    each with the scope string the code records for it), the level after `into_updated` is `Allowed` exactly when the
+    lint is named (or `All` is given) by an accepted `--allow` value, by an `allow` attribute of the file it occurs in,
+    or by an `allow` attribute on the element it concerns or on a definition enclosing that element — and `Warning`
+    otherwise. Side conditions:
+    * `hargs` — the `allow` attributes in play for this site passed `Allow::parse_from` (arguments are allowable
+      identifiers other than `DuplicateFile`; anything else is error E027 and compilation has failed);
+    * `hkey`  — the scope string the lint records is the key of ONE element of the program (`scopeKeyUnique`). This is
+      the D-13c exclusion: it fails for programs that are rejected anyway (redefinitions) and for a parameter and a return
+      member of one operation that share their name, where the statement is false (`silenced_iff_needs_unique_key`).
+    The proof rests on two facts extracted from the source on every run: member types are parsed in the member's own
+    scope (`Gen.memberTypesParsedInMemberScope`, grammar.lalrpop — the repair of D-13a) and `is_lint_allowed_by`
+    compares case-insensitively (`Gen.allowCompareIgnoresCase` — the repair of D-13b); with either flag flipped this
+    theorem does not compile. -/
+theorem silenced_iff (p : Program) (vs cli : List String) (hcli : cliParse vs = some cli) (s : LintSite)
+    (hs : s ∈ lintSites p) (hargs : siteArgsOk p s = true) (hkey : scopeKeyUnique p s = true) :
+    ((updateOne (envOf cli p) s.diag).level = .allowed ↔ SilencedBy cli p s) ∧
+    (¬ SilencedBy cli p s → (updateOne (envOf cli p) s.diag).level = .warning) ∧
+    (updateOne (envOf cli p) s.diag).level = demandedLevel cli p s := by
+  have hflag : Gen.memberTypesParsedInMemberScope = true := by decide
+  have hcmp : Gen.allowCompareIgnoresCase = true := by decide
+  obtain ⟨⟨k, hsk, hmem⟩, hkind⟩ := lintSites_ok hflag p s hs
+  have hlook : scopeAllowsOf p k = some s.chain :=
+    scopeAllowsOf_of_mem p k s.chain hmem (by simpa [scopeKeyUnique, hsk] using hkey)
+  obtain ⟨hfile, hchain⟩ := siteArgsOk_mem hargs
+  have hacc := (cliParse_some hcli).2
+  have hcode := kinds_allowable s.kind hkind
+  have hw : s.diag.level = .warning := by simp [LintSite.diag, Diag.lint, default_level_not_error s.kind hkind]
+  have hne : s.diag.level ≠ .allowed := by rw [hw]; decide
+  have hupd : (updateOne (envOf cli p) s.diag).level = updateLevel (envOf cli p) s.diag := by simp [updateOne, LintSite.diag, Diag.lint]
+  have hiff : updateLevel (envOf cli p) s.diag = .allowed ↔ SilencedBy cli p s := by
+    rw [updateLevel_allowed_iff _ _ hne]
+    unfold FileNames ScopeNames SilencedBy
+    simp only [LintSite.diag, Diag.lint, envOf]
+    rw [namedBy_cli_iff hcmp cli s.kind hacc, namedByCli_iff]
+    constructor
+    · rintro (h | ⟨f, hf, h⟩ | ⟨k', as, hk', ha, h⟩)
+      · exact Or.inl h
+      · simp only [Option.some.injEq] at hf
+        subst hf
+        exact Or.inr (Or.inl ((namedByAttrs_iff _ _).1 ((namedByAttrs_exact _ _ hfile hcode).1 h)))
+      · rw [hsk] at hk'
+        simp only [Option.some.injEq] at hk'
+        subst hk'
+        rw [hlook] at ha
+        simp only [Option.some.injEq] at ha
+        subst ha
+        exact Or.inr (Or.inr ((namedByAttrs_iff _ _).1 ((namedByAttrs_exact _ _ hchain hcode).1 h)))
+    · rintro (h | h | h)
+      · exact Or.inl h
+      · exact Or.inr (Or.inl ⟨s.file, rfl, (namedByAttrs_exact _ _ hfile hcode).2 ((namedByAttrs_iff _ _).2 h)⟩)
+      · exact Or.inr (Or.inr ⟨k, s.chain, hsk, hlook, (namedByAttrs_exact _ _ hchain hcode).2 ((namedByAttrs_iff _ _).2 h)⟩)
+  have hwarn : ¬ SilencedBy cli p s → updateLevel (envOf cli p) s.diag = .warning := by
+    intro hnd
+    rcases updateLevel_cases (envOf cli p) s.diag with h | h
+    · rw [h, hw]
+    · exact absurd (hiff.1 h) hnd
+  obtain ⟨hd1, hd2⟩ := demandedLevel_iff cli p s hkind
+  refine ⟨by rw [hupd]; exact hiff, by rw [hupd]; exact hwarn, ?_⟩
+  rw [hupd]
+  by_cases hsil : SilencedBy cli p s
+  · rw [hiff.2 hsil, hd1.2 hsil]
+  · rw [hwarn hsil, hd2 hsil]
+
+/-- the statement of `silenced_iff` without the D-13c exclusion `hkey` -/
+def silenced_iff_without_unique_key : Prop :=
+  ∀ (p : Program) (vs cli : List String), cliParse vs = some cli → ∀ s ∈ lintSites p, siteArgsOk p s = true →
     (updateOne (envOf cli p) s.diag).level = demandedLevel cli p s
 
-/-! ### refutation witnesses on the model -/
-
-/-- D-13a: `[allow(Deprecated)]` on a field whose own type is deprecated does not silence the lint (the field's
-    attributes are never consulted because the recorded scope is the struct), although the property demands it. -/
-example : (updateOne (envOf [] d13aProgram) d13aSite.diag).level = .warning ∧ demandedLevel [] d13aProgram d13aSite = .allowed := by
+/-- **silenced_iff_needs_unique_key (D-13c, open).** Without the exclusion the statement is false, in both directions:
+    in `op([allow(Deprecated)] a: Dep) -> (a: Dep, b: bool)` the lint about the parameter stays a warning although the
+    parameter itself carries the attribute (the scope string `M::I::op::a` resolves to the return member, inserted
+    last), and in `op(a: Dep) -> ([allow(Deprecated)] a: Dep, b: bool)` the lint about the parameter is silenced although
+    neither the parameter nor anything enclosing it allows it. Both sites are kernel-checked members of `lintSites`;
+    the real compiler does the same (correspondence families `d13c`, `witness`; `known-d13c`). -/
+theorem silenced_iff_needs_unique_key :
+    ¬ silenced_iff_without_unique_key ∧
+    (d13cSite ∈ lintSites d13cProgram ∧ scopeKeyUnique d13cProgram d13cSite = false ∧
+      (updateOne (envOf [] d13cProgram) d13cSite.diag).level = .warning ∧ demandedLevel [] d13cProgram d13cSite = .allowed) ∧
+    (d13cSite2 ∈ lintSites d13cProgram2 ∧ scopeKeyUnique d13cProgram2 d13cSite2 = false ∧
+      (updateOne (envOf [] d13cProgram2) d13cSite2.diag).level = .allowed ∧ demandedLevel [] d13cProgram2 d13cSite2 = .warning) := by
+  have hmem : d13cSite ∈ lintSites d13cProgram := by decide +kernel
+  have hmem2 : d13cSite2 ∈ lintSites d13cProgram2 := by decide +kernel
+  refine ⟨?_, ⟨hmem, by decide, by decide, by decide⟩, ⟨hmem2, by decide, by decide, by decide⟩⟩
+  intro h
+  have := h d13cProgram [] [] (by decide) d13cSite hmem (by decide)
+  revert this
   decide
 
-/-- the same attribute on the struct is honoured (the mirror is not simply deaf) -/
-example : (updateOne ⟨[], fun _ => [], fun s => if s == "M::S" then some [["Deprecated"]] else none⟩ d13aSite.diag).level = .allowed := by
+/-! ### the repaired defects, on the model -/
+
+/-- D-13a (repaired by 7283de9): `[allow(Deprecated)]` on a field whose own type is deprecated. The lint the compiler
+    records (kernel-checked: it is the only lint site of the program) now carries the field's own scope and is silenced,
+    as the property demands; with the scope it carried before the repair (the struct) it stayed a warning. -/
+example : lintSites d13aProgram = [d13aSite] ∧
+    (updateOne (envOf [] d13aProgram) d13aSite.diag).level = .allowed ∧ demandedLevel [] d13aProgram d13aSite = .allowed ∧
+    (updateOne (envOf [] d13aProgram) d13aSiteOld.diag).level = .warning := by
+  refine ⟨by decide +kernel, by decide, by decide, by decide⟩
+
+/-- the same attribute on the struct is honoured as before (the field inherits its container's attributes) -/
+example : (updateOne ⟨[], fun _ => [], fun s => if s == "M::S::f" then some [[], ["Deprecated"]] else none⟩ d13aSite.diag).level = .allowed := by
   decide
 
-/-- D-13b: `--allow deprecated` is accepted by the command line (`ignore_case`) and stored as spelled, but compared with
-    `==` it names nothing: the lint stays a warning (stated for the comparison extracted from the pinned tree). -/
-example : Gen.allowCompareIgnoresCase = false →
-    cliAccepts "deprecated" = true ∧ cliParse ["deprecated", "ALL"] = some ["deprecated", "ALL"] ∧
-    (updateOne ⟨["deprecated", "ALL"], fun _ => [], fun _ => none⟩ (Diag.lint "Deprecated" (some 0) (some "M::S"))).level = .warning ∧
+/-- D-13b (repaired by 61aa376): `--allow deprecated` is accepted by the command line (`ignore_case`), stored as spelled,
+    and — compared case-insensitively — names the lint. -/
+example : cliAccepts "deprecated" = true ∧ cliParse ["deprecated", "ALL"] = some ["deprecated", "ALL"] ∧
+    (updateOne ⟨["deprecated"], fun _ => [], fun _ => none⟩ (Diag.lint "Deprecated" (some 0) (some "M::S"))).level = .allowed ∧
+    (updateOne ⟨["aLL"], fun _ => [], fun _ => none⟩ (Diag.lint "Deprecated" (some 0) (some "M::S"))).level = .allowed ∧
     namedByCli ["deprecated"] "Deprecated" = true := by
   decide
 
-/-- the full statement fails on the model of the pinned tree (witness D-13b: `module M  /// {@link  struct S {}` compiled with
-    `--allow malformeddoccomment`, a lint whose site the kernel can compute) -/
-example : Gen.allowCompareIgnoresCase = false → ¬ silenced_iff_full := by
-  intro hcmp h
-  have hmem : d13bSite ∈ lintSites d13bProgram := by decide
-  have := h d13bProgram ["malformeddoccomment"] d13bSite hmem (by decide)
-  revert this hcmp
-  decide
+/-- the former D-13b witness (`module M  /// {@link  struct S {}` with `--allow malformeddoccomment`) now satisfies the statement -/
+example : d13bSite ∈ lintSites d13bProgram ∧
+    (updateOne (envOf ["malformeddoccomment"] d13bProgram) d13bSite.diag).level = .allowed ∧
+    demandedLevel ["malformeddoccomment"] d13bProgram d13bSite = .allowed := by
+  refine ⟨by decide +kernel, by decide, by decide⟩
 
 /-! ### non-vacuity -/
 
+/-- the hypotheses of `silenced_iff` are satisfiable, with a lint that is silenced through its own element and one that is not -/
+example : cliParse [] = some [] ∧ d13aSite ∈ lintSites d13aProgram ∧ siteArgsOk d13aProgram d13aSite = true ∧
+    scopeKeyUnique d13aProgram d13aSite = true ∧ SilencedBy [] d13aProgram d13aSite := by
+  refine ⟨by decide, by decide +kernel, by decide, by decide, Or.inr (Or.inr ⟨["Deprecated"], by decide, "Deprecated", by decide, Or.inr (by decide)⟩)⟩
+example : d13bSite ∈ lintSites d13bProgram ∧ siteArgsOk d13bProgram d13bSite = true ∧ scopeKeyUnique d13bProgram d13bSite = true ∧
+    (updateOne (envOf [] d13bProgram) d13bSite.diag).level = .warning ∧ demandedLevel [] d13bProgram d13bSite = .warning := by
+  refine ⟨by decide +kernel, by decide, by decide, by decide, by decide⟩
 /-- the three routes of suppression each fire, `All` works, a different lint's name does not, errors stay errors -/
 example : (intoUpdated ⟨["All"], fun _ => [], fun _ => none⟩
             [Diag.lint "Deprecated" (some 0) (some "M::S"), Diag.err "E033" (some 0), Diag.lint "DuplicateFile" none none]).map (·.level)
@@ -180,7 +295,7 @@ example : (updateOne ⟨[], fun f => if f == 1 then [["BrokenDocLink"]] else [],
 example : (updateOne ⟨["BrokenDocLink"], fun _ => [["IncorrectDocComment"]], fun _ => some [["MalformedDocComment"]]⟩
             (Diag.lint "Deprecated" (some 0) (some "M::S"))).level = .warning := by decide
 example : cliAccepts "Deprecate" = false ∧ cliAccepts "" = false ∧ cliAccepts "aLL" = true ∧ cliParse ["All", "x"] = none := by decide
-/-- the hypotheses of `silenced_iff_partial` are satisfiable with a lint that gets silenced through its own element -/
+/-- the hypotheses of `silenced_iff_config` are satisfiable with a lint that gets silenced through its own element -/
 example : (updateOne (envOf [] d13bProgram) d13bSite.diag).level = .warning ∧
           (updateOne ⟨[], fun _ => [], fun s => if s == "M::S" then some [["All"]] else none⟩ d13bSite.diag).level = .allowed := by decide
 
@@ -191,5 +306,8 @@ end Slicec.C13
 #print axioms Slicec.C13.errors_untouched
 #print axioms Slicec.C13.frame
 #print axioms Slicec.C13.allowed_only_if_named
-#print axioms Slicec.C13.named_exact
-#print axioms Slicec.C13.silenced_iff_partial
+#print axioms Slicec.C13.named_meaning
+#print axioms Slicec.C13.silenced_iff_config
+#print axioms Slicec.C13.demandedLevel_iff
+#print axioms Slicec.C13.silenced_iff
+#print axioms Slicec.C13.silenced_iff_needs_unique_key
